@@ -69,6 +69,7 @@ class AtomsHeap(Ext):
             cell = CellModel(Tensor((3, 3), [I.path.fresh(f"{tag}.cell{i}") for i in range(9)]), volume=vol)
         self.cell = cell
         self.constraints = list(constraints)
+        self.constraint_n = self.n() if self.constraints else None
         self.calc = calc
         self.log = []
         self.info = {}
@@ -176,7 +177,21 @@ class AtomsHeap(Ext):
             return self.constraints
         if name == "__len__":
             return Builtin("__len__", lambda I_, a, k: self.n())
-        if name in ("get_potential_energy", "get_total_energy", "get_kinetic_energy", "get_forces", "get_volume"):
+        if name == "get_kinetic_energy":
+            def ke(I_, a, k):
+                mom = self.arrays.get("momenta")
+                tab = I_.path.ghost.setdefault("kinetic_of", {})
+                key = mom.uid if mom is not None else None
+                if key not in tab:
+                    tab[key] = I_.path.fresh(f"Ekin_{key}")
+                return tab[key]
+            return Builtin("get_kinetic_energy", ke)
+        if name == "get_total_energy":
+            def te(I_, a, k):
+                e = self.calc.evaluate(I_, self, "get_potential_energy")
+                return ops.binop(I_, "+", e, I_.call(self.py_getattr(I_, "get_kinetic_energy"), [], {}))
+            return Builtin("get_total_energy", te)
+        if name in ("get_potential_energy", "get_forces", "get_volume"):
             if self.calc is None and name != "get_volume":
                 raise PyExc("RuntimeError", ("Atoms object has no calculator.",))
             if name == "get_volume":
@@ -256,10 +271,22 @@ class AtomsHeap(Ext):
         cnt = count(I, m)
         for name, a in list(self.arrays.items()):
             self.arrays[name] = SArr(("mgather", a, m), cnt, a.row, a.dtype)
-        # ASE re-indexes index-based constraints; this is lossy (a constraint on a deleted atom is gone)
-        self.constraints = [Constraint(c.name, c.index_based, c.version + 1) if c.index_based else c for c in self.constraints]
-        if any(c.index_based for c in self.constraints):
-            I.path.event("constraints_reindexed")
+        # ASE re-indexes index-based constraints; this is lossy (a constraint on a deleted atom is gone, the others
+        # shift).  Deleting rows that were appended after the constraints were attached leaves them untouched.
+        base_n = getattr(self, "constraint_n", None)
+        untouched = False
+        if base_n is not None and idx.term[0] == "arange":
+            s_ = z3.Solver()
+            s_.set("timeout", 2000)
+            s_.add(*I.path.pc)
+            s_.add(z3.Not(zint(idx.term[1]) >= zint(base_n)))
+            untouched = s_.check() == z3.unsat
+        if not untouched:
+            self.constraints = [Constraint(c.name, c.index_based, c.version + 1) if c.index_based else c for c in self.constraints]
+            if any(c.index_based for c in self.constraints):
+                I.path.event("constraints_reindexed")
+            if self.constraints:
+                self.constraint_n = self.n()         # the re-indexed constraints refer to the new numbering
 
     def py_getitem(self, I, idx):
         if isinstance(idx, list) and not idx:
